@@ -229,6 +229,18 @@ impl TwoLevelStateStorage {
     }
 }
 
+/// Verification hook: the slab size, for `util::verif::c30`.
+#[cfg(feature = "verif")]
+pub(crate) const VERIF_LOG_MMAP_SLAB_BYTES: usize = LOG_MMAP_SLAB_BYTES;
+
+/// Verification hook (read-only accessor for `util::verif::c30`).
+#[cfg(feature = "verif")]
+impl TwoLevelStateStorage {
+    pub(crate) fn verif_slab_allocated(&self, addr: Address) -> bool {
+        self.slab_table(addr).is_some()
+    }
+}
+
 impl Default for TwoLevelStateStorage {
     fn default() -> Self {
         Self::new()
